@@ -46,7 +46,12 @@ Proof. exact policy_before_visit. Qed.
 Theorem C09_policy_after_visit_partial : forall solve n C j i,
   n_sims n = S j -> policy_inputs n C = Some i -> policy_probs solve n C = solve i.
 Proof. exact policy_after_visit. Qed.
-(* "the move returned for a position is always a legal move of that position" *)
+(* "the move returned for a position is always a legal move of that position".
+   select_root_move is DEFINED only for expanded roots (the root has children, which by Good means at least one
+   simulation): on a root without children it is None in the model, and the code raises (policy_probs returns None,
+   torch.multinomial refuses it) - no move is returned.  MCTS.get_move with a budget that allows no simulation is
+   therefore outside these theorems; the correspondence calls the real get_move in that situation and demands that it
+   raises or returns a legal move. *)
 Theorem C09_select_root_move_legal : forall cutoff n ks i k,
   Good cutoff n -> n_kids n = Some ks -> nth_error ks i = Some k ->
   exists m, n_move k = Some m /\ In m (table (size (n_pos n))) /\
